@@ -139,7 +139,13 @@ pub fn inconclusive(v: Value) {
 
 /// Move the violations raised by the monitors since the last call into the report, attaching the
 /// witness (description of the execution that produced them). Returns how many there were.
+/// While set, reports stay queued in `crate::viol` (the C18 workload folds them itself).
+pub static HOLD_VIOLATIONS: AtomicBool = AtomicBool::new(false);
+
 pub fn collect_violations(witness: &Value) -> usize {
+    if HOLD_VIOLATIONS.load(SeqCst) {
+        return 0;
+    }
     let vs = crate::viol::take();
     let n = vs.len();
     if n > 0 {
